@@ -34,6 +34,8 @@ def universe(depth2=False):
 
 
 def main():
+    import astlib
+    astlib.AUTO_FUNCS = 0.2       # sqrt exp ln log pow at exact points in a fifth of the generated formulas
     rep = core.Report("C02")
     quick = core.tier() == "quick"
     F, dup = universe()
